@@ -35,7 +35,7 @@ type HubCase struct {
 }
 
 var hubMuts = []string{"none", "none", "hub-pays-extra", "hub-pays-other-share", "peer-pays-less", "amount+1", "other-locked-added", "imap-swapped"}
-var hubSettleMuts = []string{"none", "none", "hub-gets-less", "peer-gets-all", "keep-suballoc"}
+var hubSettleMuts = []string{"none", "none", "hub-gets-less", "peer-gets-all", "keep-suballoc", "other-final", "other-final"}
 
 func drawHubCase(t *rapid.T) HubCase {
 	var c HubCase
@@ -256,7 +256,9 @@ func runHubCase(c HubCase) *h.Outcome {
 	env.Quiesce(40*time.Millisecond, sim.HangLimit)
 
 	// ---- oracle: what did the hub sign on its two ledger channels?
+	finals := [][2]uint64{c.FinalV} // final states of the virtual channel the adversary's two keys have signed
 	judgeAll := func() *h.Failure {
+		settledWith := [2]map[int]bool{}
 		for i := 0; i < 2; i++ {
 			id := hch[i].ID()
 			hI, mI := hch[i].Idx(), mch[i].Idx()
@@ -303,17 +305,49 @@ func runHubCase(c HubCase) *h.Outcome {
 						return h.Failf("hub-countersigned-unsafe:"+kind, "the funding sub-allocation does not lock the virtual channel's total")
 					}
 				case len(removed) == 1 && len(added) == 0:
+					// the settled channel has ONE final state: the update must credit the
+					// remapped balances of a final state the channel's participants signed,
+					// and both parents must be settled with the same one
 					x := removed[0]
-					fin := mkV(c.FinalV, 1, true)
-					want := remap(fin.State.Balances[0], x.IndexMap, 2)
-					for p := 0; p < 2; p++ {
-						if d := new(big.Int).Sub(next.Balances[0][p], cur.Balances[0][p]); d.Cmp(want[p]) != 0 {
-							return h.Failf("hub-countersigned-unsafe:"+kind, "virtual channel settlement on ledger channel %d changes participant %d's balance by %v, its (remapped) final balance is %v", i, p, d, want[p])
+					match := map[int]bool{}
+					var firstWant []*big.Int
+					for fi, fv := range finals {
+						want := remap([]channel.Bal{bal(fv[0]), bal(fv[1])}, x.IndexMap, 2)
+						if fi == 0 {
+							firstWant = want
+						}
+						all := true
+						for p := 0; p < 2; p++ {
+							if d := new(big.Int).Sub(next.Balances[0][p], cur.Balances[0][p]); d.Cmp(want[p]) != 0 {
+								all = false
+							}
+						}
+						if all {
+							match[fi] = true
 						}
 					}
+					if len(match) == 0 {
+						for p := 0; p < 2; p++ {
+							if d := new(big.Int).Sub(next.Balances[0][p], cur.Balances[0][p]); d.Cmp(firstWant[p]) != 0 {
+								return h.Failf("hub-countersigned-unsafe:"+kind, "virtual channel settlement on ledger channel %d changes participant %d's balance by %v, its (remapped) final balance is %v", i, p, d, firstWant[p])
+							}
+						}
+					}
+					settledWith[i] = match
 				default:
 					return h.Failf("hub-countersigned-unsafe:"+kind, "the hub signed an update that adds/removes several sub-allocations")
 				}
+			}
+		}
+		if settledWith[0] != nil && settledWith[1] != nil {
+			common := false
+			for fi := range settledWith[0] {
+				if settledWith[1][fi] {
+					common = true
+				}
+			}
+			if !common {
+				return h.Failf("hub-countersigned-unsafe:vcsettle:different-finals", "the hub signed the settlement of one virtual channel on its two ledger channels with two different final states: it pays out %v and %v", finals[0], finals[len(finals)-1])
 			}
 		}
 		return nil
@@ -345,7 +379,24 @@ func runHubCase(c HubCase) *h.Outcome {
 			cur := hch[i].State()
 			hI, mI := int(hch[i].Idx()), int(mch[i].Idx())
 			sa, _ := cur.SubAlloc(vparams.ID())
-			gain := remap(fin.State.Balances[0], sa.IndexMap, 2)
+			useFin := fin
+			if mut == "other-final" {
+				// the two endpoints collude: this parent is settled with another final
+				// state (validly signed by both of them, consistent parent update)
+				f2 := [2]uint64{c.FinalV[1], c.FinalV[0]}
+				if f2 == c.FinalV {
+					if f2[0] > 0 {
+						f2 = [2]uint64{f2[0] - 1, f2[1] + 1}
+					} else {
+						mut = "none"
+					}
+				}
+				if mut == "other-final" {
+					finals = append(finals, f2)
+					useFin = mkV(f2, 1, true)
+				}
+			}
+			gain := remap(useFin.State.Balances[0], sa.IndexMap, 2)
 			s := cur.Clone()
 			s.Version++
 			s.Balances[0][0] = new(big.Int).Add(s.Balances[0][0], gain[0])
@@ -384,7 +435,7 @@ func runHubCase(c HubCase) *h.Outcome {
 			expected[enc(s)] = expect{cur: cur, kind: "vcsettle:" + mut}
 			msg := &client.VirtualChannelSettlementProposalMsg{
 				ChannelUpdateMsg: client.ChannelUpdateMsg{ChannelUpdate: client.ChannelUpdate{State: s, ActorIdx: channel.Index(mI)}, Sig: M[i].SignState(s)},
-				Final:            fin}
+				Final:            useFin}
 			_ = M[i].Inject(H, msg)
 		}
 		env.Quiesce(40*time.Millisecond, sim.HangLimit)
